@@ -213,6 +213,20 @@ func (pk *PkgCtx) contractFor(f *ssa.Function) (string, *FuncContract) {
 	if con, ok := pk.contracts.Externs[key]; ok {
 		return key, con
 	}
+	// free functions of a few standard packages do not write program state (formatting, logging, string
+	// and number helpers): they get an empty contract (fresh result, nothing modified) instead of the
+	// "unknown code may write everything it reaches" treatment. Listed in the evidence as assumed.
+	if f.Pkg != nil && f.Signature != nil && f.Signature.Recv() == nil && pureStdPkgs[f.Pkg.Pkg.Path()] && !strings.HasPrefix(f.Name(), "Fprint") && !strings.HasPrefix(f.Name(), "Fscan") && !strings.HasPrefix(f.Name(), "Sscan") {
+		if pk.stdPure == nil {
+			pk.stdPure = map[string]*FuncContract{}
+		}
+		if con, ok := pk.stdPure[key]; ok {
+			return key, con
+		}
+		con := &FuncContract{Key: key, Prop: "", Extern: true, Line: "standard library (treated as pure)"}
+		pk.stdPure[key] = con
+		return key, con
+	}
 	// generic instantiations: try the origin
 	if o := f.Origin(); o != nil {
 		if con, ok := pk.contracts.Externs[o.String()]; ok {
@@ -1600,3 +1614,5 @@ func selectorChain(e ast.Expr) (string, []string) {
 	}
 	return "", nil
 }
+
+var pureStdPkgs = map[string]bool{"log": true, "fmt": true, "errors": true, "strings": true, "strconv": true, "unicode": true, "unicode/utf8": true, "math": true, "math/bits": true, "path": true, "path/filepath": true}
